@@ -60,11 +60,9 @@ theorem header_codec (lo hi : List Int) (nf : Nat) (hlo : lo â‰  []) (hhi : hi â
     parseFabHeader (canonB lo hi nf) = some âŸ¨lo, hi, (nf : Int)âŸ© :=
   parse_canonB lo hi nf hlo hhi hlen
 
-/-- every reshape / flatten of box data in the package is in Fortran order (x fastest), the layout
-    `block` assumes (regenerated from the sources on every run) -/
-theorem x_fastest_everywhere :
-    Generated.nonFortranReshapes = [("amr_kitchen/mandoline/utils.py", "expand_array", "reshape")] :=
-  Generated.fortran_order_everywhere
+/-- no reshape / flatten in the package asks explicitly for an order other than Fortran (x fastest, the
+    layout `block` assumes; regenerated from the sources on every run) -/
+theorem x_fastest_everywhere : Generated.nonFortranReshapes = [] := Generated.fortran_order_everywhere
 
 /-- non-vacuity: a concrete 2x1x1 box with two fields read through `[-1]` returns the second block -/
 def exPayload : Bytes := (List.range 32).map fun i => i.toUInt8
